@@ -7,14 +7,6 @@
 From Apko Require Export Base.Prelude Model.Tar Spec.TarSpec.
 Open Scope string_scope. Open Scope list_scope.
 
-Definition entry_eqb (a b : entry) : bool :=
-  path_eqb (e_path a) (e_path b) && kind_eqb (e_kind a) (e_kind b) &&
-  N.eqb (e_mode a) (e_mode b) && Z.eqb (e_uid a) (e_uid b) && Z.eqb (e_gid a) (e_gid b) &&
-  option_eqb String.eqb (e_uname a) (e_uname b) && option_eqb String.eqb (e_gname a) (e_gname b) &&
-  String.eqb (e_link a) (e_link b) && N.eqb (e_devmaj a) (e_devmaj b) && N.eqb (e_devmin a) (e_devmin b) &&
-  xattrs_eqb (e_xattrs a) (e_xattrs b) && Z.eqb (e_mtime a) (e_mtime b) && N.eqb (e_mnsec a) (e_mnsec b) &&
-  N.eqb (e_cid a) (e_cid b) && N.eqb (e_size a) (e_size b).
-
 (* compact constructors used by the harness printer *)
 Definition mkm (mode : N) (uid gid mt : Z) (ns : N) (xa : list (string * string)) : meta :=
   {| m_mode := mode; m_uid := uid; m_gid := gid; m_mtime := mt; m_mnsec := ns; m_xattrs := xa |}.
